@@ -18,6 +18,7 @@ require (
 	github.com/edsrzf/mmap-go v1.1.0 // indirect
 	github.com/golang/snappy v0.0.4 // indirect
 	github.com/google/uuid v1.6.0 // indirect
+	github.com/gorilla/websocket v1.5.3 // indirect
 	github.com/hjfreyer/taglib-go v0.0.0-20151027170453-0ef8bba9c41b // indirect
 	github.com/mattn/go-isatty v0.0.20 // indirect
 	github.com/nf/cr2 v0.0.0-20140528043846-05d46fef4f2f // indirect
@@ -27,8 +28,11 @@ require (
 	github.com/syndtr/goleveldb v1.0.1-0.20210305035536-64b5b1c73954 // indirect
 	github.com/tetratelabs/wazero v1.9.0 // indirect
 	golang.org/x/image v0.27.0 // indirect
+	golang.org/x/net v0.40.0 // indirect
+	golang.org/x/oauth2 v0.30.0 // indirect
 	golang.org/x/sync v0.14.0 // indirect
 	golang.org/x/sys v0.33.0 // indirect
+	golang.org/x/text v0.25.0 // indirect
 	modernc.org/fileutil v1.0.1-0.20200808163328-2079183a536e // indirect
 	modernc.org/internal v1.0.3 // indirect
 	modernc.org/kv v1.0.4 // indirect
